@@ -224,6 +224,14 @@ def cargo_build(ctx, bins=("corr",)):
     t = time.time()
     cmd = ["cargo", "build", "--offline"] + sum((["--bin", b] for b in bins), [])
     rc, out = sh(cmd, cwd=HARNESS, timeout=3000)
+    if rc != 0 and "error[E" not in out:
+        # not a compile error in the source: a corrupted incremental cache (rustc abort, "undefined hidden symbol" at link
+        # time) after an interrupted or concurrent build. Drop the incremental state of the workspace crates and retry once.
+        import shutil
+        shutil.rmtree(os.path.join(VERIF, ".build", "cargo", "debug", "incremental"), ignore_errors=True)
+        sh(["cargo", "clean", "--offline", "-p", "rzmq", "-p", "rzmq_verif_harness"], cwd=HARNESS, timeout=600)
+        ctx.notes.append("harness build failed without a source error (toolchain/cache problem); cache dropped, rebuilt once")
+        rc, out = sh(cmd, cwd=HARNESS, timeout=3000)
     ctx.cov["cargo_build_s"] = round(time.time() - t, 1)
     if rc != 0:
         errs = re.findall(r"^error[^\n]*\n[^\n]*", out, re.M)
